@@ -22,8 +22,9 @@ def check_groupby(rep, rule: str, prog, modules: Iterable[str], consequence: str
     for mod in prog.package.modules.values():
         if mod.name not in modules:
             continue
+        aliases = {"groupby"} | {a.asname for i in ast.walk(mod.tree) if isinstance(i, ast.ImportFrom) and i.module == "itertools" for a in i.names if a.name == "groupby" and a.asname}
         for n in ast.walk(mod.tree):
-            if not (isinstance(n, ast.Call) and ((isinstance(n.func, ast.Name) and n.func.id == "groupby") or (isinstance(n.func, ast.Attribute) and n.func.attr == "groupby"))):
+            if not (isinstance(n, ast.Call) and ((isinstance(n.func, ast.Name) and n.func.id in aliases) or (isinstance(n.func, ast.Attribute) and n.func.attr == "groupby"))):
                 continue
             n_sites += 1
             f, c = enclosing_function(n), enclosing_class(n)
@@ -47,7 +48,7 @@ def check_groupby(rep, rule: str, prog, modules: Iterable[str], consequence: str
                 if same_key(skey, key):
                     rep.ok(rule, f"groupby input is sorted by the grouping key: {short(n, 80)}")
                     continue
-                rep.violation(rule, mod.name, qual, f"groupby over input sorted by another key: {short(n, 80)}", f"{short(n, 120)} groups by {unparse(key) if key else 'identity'} an iterable sorted by {unparse(skey) if skey else 'its natural order'}: groupby merges only adjacent items, so a group whose members are not contiguous is split: {consequence}", loc(n))
+                rep.violation(rule, mod.name, qual, f"groupby over input sorted by another key: {short(n, 80)}", f"{short(n, 120)} groups by {unparse(key) if key else 'identity'} an iterable sorted by {unparse(skey) if skey else 'its natural order'}: groupby merges only adjacent items, so a group whose members are not contiguous is split: {consequence}", loc(n), definite=True)
                 continue
             if isinstance(inner, (ast.ListComp, ast.GeneratorExp, ast.Attribute, ast.Name)):
                 ktxt = unparse(key.body) if isinstance(key, ast.Lambda) else (unparse(key) if key is not None else "")
@@ -62,6 +63,7 @@ def check_groupby(rep, rule: str, prog, modules: Iterable[str], consequence: str
                     f"{short(n, 120)} groups an iterable that keeps the order of the collection it was built from ({short(inner, 70)}: entry sets are ordered by instant, balance sets by exchange then holder), "
                     f"not the order of the grouping key ({ktxt or 'identity'}): groupby merges only adjacent items, so a group whose members are not contiguous is split and the later part overwrites or duplicates the earlier one: {consequence}",
                     loc(n),
+                    definite=True,  # the call itself is the wrong construct, wherever it was moved to
                 )
                 continue
             rep.defer_error(f"{loc(n)}: {qual}: cannot determine the order of the iterable given to {short(n, 80)}")
